@@ -605,10 +605,28 @@ func (t *Table) DeleteRows(startIndex, endIndex int) error {
 	return nil
 }
 
+// checkNoSpannedCells 在表格含有水平合并的单元格（gridSpan 大于1）时返回错误。
+// 列的插入和删除按物理单元格索引进行，而水平合并之后物理索引不再对应网格列：
+// 继续操作会使某些行与表格网格不一致，或使垂直合并的单元格错位。
+func (t *Table) checkNoSpannedCells(action string) error {
+	for i := range t.Rows {
+		for j := range t.Rows[i].Cells {
+			if cellGridSpan(&t.Rows[i].Cells[j]) > 1 {
+				return fmt.Errorf("第%d行第%d个单元格是水平合并的单元格，无法%s，请先取消合并", i, j, action)
+			}
+		}
+	}
+	return nil
+}
+
 // InsertColumn 在指定位置插入列
 func (t *Table) InsertColumn(position int, data []string, width int) error {
 	if len(t.Rows) == 0 {
 		return fmt.Errorf("表格没有行，无法插入列")
+	}
+
+	if err := t.checkNoSpannedCells("插入列"); err != nil {
+		return err
 	}
 
 	colCount := len(t.Rows[0].Cells)
@@ -700,6 +718,10 @@ func (t *Table) DeleteColumn(colIndex int) error {
 		return fmt.Errorf("表格没有行")
 	}
 
+	if err := t.checkNoSpannedCells("删除列"); err != nil {
+		return err
+	}
+
 	colCount := len(t.Rows[0].Cells)
 	if colIndex < 0 || colIndex >= colCount {
 		return fmt.Errorf("列索引无效：%d，表格共有%d列", colIndex, colCount)
@@ -734,6 +756,10 @@ func (t *Table) DeleteColumn(colIndex int) error {
 func (t *Table) DeleteColumns(startIndex, endIndex int) error {
 	if len(t.Rows) == 0 {
 		return fmt.Errorf("表格没有行")
+	}
+
+	if err := t.checkNoSpannedCells("删除列"); err != nil {
+		return err
 	}
 
 	colCount := len(t.Rows[0].Cells)
